@@ -47,6 +47,11 @@ RULE = ("cases: `stream` = the real rlib_rand::Rng against the Lean LCG (constan
         "rounds of operations on their own treaps: their results must equal the Vec oracle and the same operations run alone IN A FRESH PROCESS; "
         "`exit` = the last min(m/2,16) draws of every thread are made from the destructor of a thread-local while the thread exits (registered before "
         "the thread's first node for even threads, after its last for odd ones): they must continue the thread's stream. "
+        "Wave 4 (seeded C17_m12): `long <disc> k m` = 2 LONG-LIVED threads make m/2 draws each (full operation mix), stay alive while a CROWD of k "
+        "short-lived threads (one node each through from_item / insert_at / TreapNode::new, 8 at a time, every one joined) comes and goes — k = 300 and 700 "
+        "quick, up to 5000 thorough: more than 256 and 2*256 thread ordinals — and then make the remaining draws on fresh treaps: every thread's stream "
+        "(the long-lived ones across the pause, every crowd thread's single draw) must be what the discipline promises and their treap results/shapes "
+        "those of the same work run alone; the situation is constructed (serialised by barriers), so the failing input reproduces. "
         "BOTH BUILD PROFILES: the real-thread cases (conc, tie, render, deep in smaller sizes; stack, panic, exit in full) also run against the debug build "
         "of rlib (cfg(debug_assertions), debug_assert!, overflow checks). "
         "non-trivial = distinct `sched`/`conc`-like case with at least two threads that both draw, or `stream` case with n >= 2")
@@ -58,6 +63,8 @@ ASSUMPTIONS = [
     "treap results independent of the priorities drawn: proved for the treap model in C03 (results_independent_of_priorities); here tested against a Vec oracle",
     "the text a rendering must produce (TreePrinter: `- item` per node, `- [None]` per missing child, 3 columns per level; Debug: items in order, each "
     "followed by a blank) is an independent brute-force oracle inside the harness (a walk over the public left/right fields); it is not modelled in Lean",
+    "wave 4: for `long` lines the Lean model runs the programs [m, m, 1 x k] under the serial schedule the harness constructs (first halves, crowd, "
+    "second halves; the theorems quantify over all programs and schedules, so no new model definition is involved); treap results are judged inside the harness as for `conc`",
     "wave 3: for `stack`/`panic`/`exit` lines the Lean model answers as for `conc` (k threads x m draws: the priority streams); what the threads do with "
     "their treaps is judged inside the harness by independent oracles — plain Vecs, and the same operations run alone (for `panic`: in a fresh child "
     "process in which no callback ever panics). Tall treaps with hand-written priorities are valid treaps (heap order holds; C16's height half is about "
@@ -76,7 +83,8 @@ MANIFEST = {
              "duplicates a draw and is not serialisable. `c17 : Safe RngDiscipline.current` is stated over the generated discipline, so it "
              "stops compiling when the source goes back to `static mut`. Tie: extractor + barrier-released stress threads (every public "
              "operation of the crate incl. rendering, each thread's results compared with the same operations run alone; all threads held deep inside "
-             "the same recursion at once; neighbours whose item callbacks panic; nodes created in thread-exit destructors; release AND debug build) against the "
+             "the same recursion at once; neighbours whose item callbacks panic; nodes created in thread-exit destructors; long-lived threads observed before and after hundreds of short-lived "
+             "node-creating threads have come and gone; release AND debug build) against the "
              "model and the implementation's own sequential run + Miri."),
     "note": ("Partial: the hardware/compiler memory model is not modelled; data-race freedom of thread_local!/Mutex/atomics is Rust's guarantee "
              "(trusted); the extractor is a syntactic whitelist classifier; real schedules are sampled (stress, Miri), not enumerated."),
@@ -84,7 +92,7 @@ MANIFEST = {
     "design_ref": "DESIGN.md §6 C17",
 }
 
-REAL_THREAD_KINDS = ("conc", "tie", "deep", "render", "stack", "panic", "exit", "sched", "fsched")
+REAL_THREAD_KINDS = ("conc", "tie", "deep", "render", "stack", "panic", "exit", "long", "sched", "fsched")
 GENERATED = os.path.join(V.LEAN, "RlibModel", "Generated", "RngDiscipline.lean")
 SAFE = ("threadLocal", "mutex", "atomicRmw")
 
